@@ -24,7 +24,7 @@ The end-to-end statement composes four facts about the REAL model functions (no 
 
   (H8, C08)  the tracer returns the documented mapping:   `C04_fromType_mapping` (every type, enums included), and it
              succeeds on every walkable, mappable type within the pass budget: `C04_fromType_ok`
-  (H1, C01)  the builder refines the documented mapping:  `Props.C01.C01_build_decode'` + `Props.C01.C03_wf'` (the hidden-rows
+  (H1, C01)  the builder refines the documented mapping:  `Props.C01.C01_build_decode'` + `Props.C01.C03_wfS'` (the hidden-rows
              refinement, Props/C01Obs.lean: NO `Safe` hypothesis), their schema side conditions (`SchemaOKF`, `coveredF`)
              proved for every traced schema (`mapping_side`)
   (H2, C02)  the reader returns the cast of the decoded content: `Props.C02.read_typed_decode` with `cast_lvO`,
@@ -205,7 +205,7 @@ theorem C04_roundtrip_core (c : Trace.Code) (O : Trace.Options) (ext : Ext) (n :
     (fun f hf => (hside f hf).1)
     (List.all_eq_true.mpr fun f hf => (hside f hf).2) (fun x hx => Build.noRaw_ssa x (hser x hx).1)
     (Or.inl fun x hx => (hser x hx).1) htm
-  obtain ⟨_, hwf⟩ := Props.C01.C03_wf' ext fields (vs.map (ser t)) arrs
+  obtain ⟨_, hwf⟩ := Props.C01.C03_wfS' ext fields (vs.map (ser t)) arrs
     (fun f hf => (hside f hf).1) (Or.inr (List.all_eq_true.mpr fun f hf => (hside f hf).2)) hext (fun x hx => (hser x hx).2) htm
   have hrl : (vs.map (ser t)).length = vs.length := List.length_map _
   -- the root reader
@@ -302,14 +302,14 @@ rendering of a typed value as the visitor calls of a typed read.
 
 NO `Safe` hypothesis (the former `hsafe : safeFs (mappingFields (viewOpts O) fs)`): a dictionary-encoded `String` directly
 below an `Option<struct>` — where C01's per-builder append-only statement is false (`dict_placeholder_unstable`; witness
-`exSafeFalse` in Props/C04Accept.lean) — is covered by the hidden-rows refinement (`C01_build_decode'`, `C03_wf'` through its
+`exSafeFalse` in Props/C04Accept.lean) — is covered by the hidden-rows refinement (`C01_build_decode'`, `C03_wfS'` through its
 `coveredF` alternative: every traced schema is `coveredF`).
 
 `Read.physical` (the value count of every Dictionary column fits `i64`) is no longer a hypothesis: it is derived from the
 input-side bound `hlen` (at most `i64::MAX` records; `C04_physical`).
 `_partial`, remaining hypothesis — exactly ONE:
   `hext`   the external chrono parsers return values in range (`ExtOK`; no temporal column occurs in a traced schema, but
-           `Props.C01.C03_wf'` asks for it unconditionally; a theorem for the codec models: `C04_end_to_end_codec`). -/
+           `Props.C01.C03_wfS'` asks for it unconditionally; a theorem for the codec models: `C04_end_to_end_codec`). -/
 theorem C04_roundtrip_partial (c : Trace.Code) (O : Trace.Options) (ext : Ext) (n : String) (fs : TFields) (vs : List Val)
     (fields : List Field) (arrs : List Arr)
     (h0 : O.overwrites = []) (hfrag : fragE (.struct n fs) = true) (hne : fs ≠ .nil)
